@@ -96,6 +96,22 @@ def table() -> dict[str, Prop]:
              not_decided="that delimiter matching (balance_pairs) pairs correctly for every delimiter sequence, that adjacent text is "
                          "always merged, and markup equality of the retyped emphasis pairs beyond the literals (index arithmetic "
                          "over runtime lists)"))
+    from .rules import map_rules as MP
+    reg(Prop("C03", "map identity: a block token's map is [the line the rule was entered on, the cursor the rule returns with]; "
+             "placeholder ends ([x, 0]) are patched with the cursor on every path to return True; the reference table's map "
+             "entries obey the same identity (MAP)",
+             [MP.rule_map],
+             not_decided="0 <= b < e <= number of lines, non-blank first / last line, nesting inside the parent's map, ordering of "
+                         "siblings and coverage of every non-blank line (line arithmetic over runtime tables; a cursor that "
+                         "overshoots its range is out of reach of the identity)"))
+    from .rules import ctx_rules as CX
+    reg(Prop("C07", "no parser state leaks out of a block rule: blkIndent, listIndent, lineMax and every line-table cell a rule writes "
+             "hold their entry values at every return of every block rule and of the dispatcher (CTX); the two unrestored fields "
+             "are dead at rule exit - tight is rewritten after every dispatch and before its only read, parentType is a literal of "
+             "the dispatching rule wherever its only (validation-mode) reader can run (FRESH); the nesting level by PAIR; "
+             "blockquote's save lists stay in lockstep with the lines they save (LOCK)",
+             [CX.rule_ctx, CX.rule_fresh, CX.rule_lock, TK.rule_pair],
+             not_decided="the concatenation law itself (that the blocks of A + blank + B are those of A followed by those of B)"))
     return props
 
 
@@ -107,6 +123,11 @@ NOT_APPLICABLE["C06"] = ("a metamorphic relation between the parses of two diffe
                          "frames) are claimed under C07 and C17 instead")
 
 TECHNIQUE = {
+    "C07": "value numbering with symbolic entry values (context fields and line-table cells restored at every return, "
+           "co-inductive over the rule set); must-pass-through / dominance checks for the freshness of tight and parentType; "
+           "sibling lockstep of the save lists",
+    "C03": "value numbering with symbolic entry values over per-rule CFGs (map end == cursor identity) plus a must-pass-through "
+           "path check for placeholder patches",
     "C02": "typestate (flag valuation x level offset) over per-function CFGs with co-inductive callee summaries; value numbering "
            "of the push bodies specialised on the nesting literal; literal-agreement and who-may-write queries; dominance of "
            "`not silent` via predicate dataflow; traversal-coverage analysis of the placeholder eliminator",
